@@ -24,13 +24,21 @@ FUNCTIONS = ["ioflo.base.storing.Share.value (setter)", "Share.update", "Share.c
              "ioflo.base.storing.Data.__setattr__", "ioflo.base.storing.Deck.gulp", "Deck.spew", "Deck.push", "Deck.pull"]
 ASSUMPTIONS = [
     "exact-time regime: stamps are ints (store.stamp assigned directly); Store built without __init__ bookkeeping shares",
-    "field universe {value, a, b}; argument names {value, a, c, _p, 1x, x-y, _show, 'a\\n'}; <= 2 fields per update/change/create",
-    "a multi-field operation that meets an invalid name must raise and must not leave the invalid name behind; whether "
-    "fields before it were already applied, and its stamp, are not judged (statement silent)",
+    "quick: field universe {value, a}, argument names {value, a, c, _p, x-y, _show, 'a\\n'} (second item of a two-field "
+    "argument from {a, c, _p}); thorough: fields {value, a, b}, names add 1x, both items from the full alphabet; "
+    "<= 2 fields per update/change/create",
+    "an invalid field name may be rejected by an exception or silently ignored (statement: 'must be public identifiers'); "
+    "either way it must not be stored.  After an exception in a multi-field operation only self-consistency of the "
+    "record is judged (whether earlier fields were applied, and the stamp, are left open: statement silent)",
+    "names of Data's own methods (_show) are used as arguments but not as lookup keys (hasattr is trivially true)",
     "share[k] = v and del share[k]: resulting stamp not judged (statement silent: only value=/update stamp, change never)",
     "spew returning a None element that was put in with push(None) is FIFO behaviour, not 'None while non-empty'",
     "pull on an empty deck: IndexError or a None result are both accepted (statement silent); deck must stay empty",
     "public identifier = str.isidentifier() and not starting with '_'",
+    "on a FAILING path the harness pins the remaining symbolic inputs to one model value before the engine realises "
+    "the counterexample (one failing path per branch pattern instead of |domain|^k); confirmed paths are untouched",
+    "the vacuity label 'existing-field' of the delitem obligation is waived by a concrete probe while every deletion of "
+    "an existing field is a replayed violation, and required again once deletion works",
 ]
 
 FIELDS = ["value", "a", "b"]
@@ -401,7 +409,7 @@ def _delete_works():
 
 def obligations(tier):
     quick = tier == "quick"
-    budget = 240 if quick else 1200
+    budget = 240 if quick else 3000
     fields = ["value", "a"] if quick else FIELDS
     names = NAMES if not quick else ["value", "a", "c", "_p", "x-y", "_show", "a\n"]
     names2 = names if not quick else ["a", "c", "_p"]
